@@ -1,12 +1,52 @@
 import HidVerif.Proofs.CoreStmt
 /-!
 # Core compiler proofs: statement lists (`cS_ok`) by induction on the fuel of `exec`
+
+Two kinds of statement lists are covered by one theorem:
+* lists without `try` (bodies of `try` blocks: they may contain defeat calls) — the conclusion
+  is a `Reach`, or `Halts` of the start state when the source semantics says *defeat*;
+* lists at the level of the you function (`youLevel`: `try` allowed, defeat calls only inside
+  `try` bodies) — these additionally need to know that the states in which the whole list can
+  end never halt, because a Turing jump looks at the whole future (`hsafe`).
 -/
 namespace HidVerif.Core
 open HidVerif HidVerif.PSys HidVerif.Sphinx HidVerif.Gen
 
 section
 variable {p : Prog} {ck : Bool} {B : Nat}
+
+/-- what a caller must know about the end of a statement list that contains `try` -/
+def Safe (p : Prog) (B ra : Nat) (Γ : Gam) (env' : Env) (F D o pcEnd : Nat) (res : Res) (s : S) : Prop :=
+  noTry s = true ∨
+    (youLevel s = true ∧ ∀ st', Post p B ra Γ env' F D o pcEnd res st' → ¬ Halts (sphinx p) st')
+
+theorem Safe.sub {Γ Γ' : Gam} {env' : Env} {F D ra o o' e e' : Nat} {res : Res} {s k : S}
+    (h : Safe p B ra Γ env' F D o e res s)
+    (hnt : noTry s = true → noTry k = true) (hyl : youLevel s = true → youLevel k = true)
+    (conv : ∀ st', Post p B ra Γ' env' F D o' e' res st' → Post p B ra Γ env' F D o e res st') :
+    Safe p B ra Γ' env' F D o' e' res k := by
+  rcases h with h | ⟨h1, h2⟩
+  · exact Or.inl (hnt h)
+  · exact Or.inr ⟨hyl h1, fun st' hp => h2 st' (conv st' hp)⟩
+
+/-- what `cS_ok` concludes -/
+def Concl (p : Prog) (B ra : Nat) (Γ : Gam) (env' : Env) (F D o pc pcEnd : Nat) (m : Mem) (tr : List Ev) (res : Res) : Prop :=
+  (res = .defeat → Halts (sphinx p) ⟨pc, m⟩) ∧
+  (res ≠ .defeat → ∃ st', Reach (sphinx p) ⟨pc, m⟩ tr st' ∧ Post p B ra Γ env' F D o pcEnd res st')
+
+/-- prefix a `Reach` to a conclusion about the rest -/
+theorem Concl.pre {Γ Γ' : Gam} {env' : Env} {F D ra o o' pc pc1 e e' : Nat} {m m1 : Mem} {tr0 tr : List Ev} {res : Res}
+    (r : Reach (sphinx p) ⟨pc, m⟩ tr0 ⟨pc1, m1⟩)
+    (h : Concl p B ra Γ' env' F D o' pc1 e' m1 tr res)
+    (conv : ∀ st', Post p B ra Γ' env' F D o' e' res st' → Post p B ra Γ env' F D o e res st') :
+    Concl p B ra Γ env' F D o pc e m (tr0 ++ tr) res :=
+  ⟨fun hd => r.1 (h.1 hd), fun hn => by
+    obtain ⟨st', r2, hp⟩ := h.2 hn
+    exact ⟨st', r.trans r2, conv st' hp⟩⟩
+
+theorem post_conv {Γ : Gam} {env' : Env} {F D ra o e e' : Nat} {res : Res} (he : e' = e) :
+    ∀ st', Post p B ra Γ env' F D o e' res st' → Post p B ra Γ env' F D o e res st' := by
+  subst he; exact fun _ h => h
 
 theorem cS_ok (lib : Placed p B) (F D ra : Nat) (hra : ra < 256 ^ p.w) :
     ∀ (fuel : Nat) (s : S) (Γ : Gam) (env : Env) (pc o : Nat) (m : Mem) (env' : Env) (tr : List Ev) (res : Res),
@@ -15,8 +55,8 @@ theorem cS_ok (lib : Placed p B) (F D ra : Nat) (hra : ra < 256 ^ p.w) :
       SInv p Γ env m F D o ra → Disj p.w Γ → wfS (Γ.map Prod.fst) s = true →
       pkS p.w o s ≤ D → p.w ≤ o →
       exec (256 ^ p.w) (8 * p.w) fuel env s = some (env', tr, res) → (res = .div0 → ck = true) →
-      ∃ st', Reach (sphinx p) ⟨pc, m⟩ tr st' ∧
-        Post p B ra Γ env' F D o (pc + (cS (cxOf p ck B) Γ pc o s).length) res st' := by
+      Safe p B ra Γ env' F D o (pc + (cS (cxOf p ck B) Γ pc o s).length) res s →
+      Concl p B ra Γ env' F D o pc (pc + (cS (cxOf p ck B) Γ pc o s).length) m tr res := by
   have hw := lib.hw
   have h64 := mul_w_lt_pow p.w hw
   have hM := pow_ge2 p.w hw
@@ -25,14 +65,19 @@ theorem cS_ok (lib : Placed p B) (F D ra : Nat) (hra : ra < 256 ^ p.w) :
   induction fuel with
   | zero => intro s Γ env pc o m env' tr res _ _ _ _ _ _ _ hex; simp [exec] at hex
   | succ f ih =>
-    intro s Γ env pc o m env' tr res hpl hB hinv hd hwf hpk ho hex hck
+    intro s Γ env pc o m env' tr res hpl hB hinv hd hwf hpk ho hex hck hs
     have hroom := hinv.fr.room; have htop := hinv.fr.top; have hFM := hinv.fr.lt
     have hoD : o ≤ D := by have := pkS_ge p.w s o; omega
+    -- a fault exit: the machine is in the `division_by_zero` stub
+    have fault : ∀ (pc0 : Nat) (e0 : Nat) (env0 : Env) (m0 m' : Mem) (t : List Ev),
+        Reach (sphinx p) ⟨pc0, m0⟩ t ⟨B + off_division_by_zero, m'⟩ →
+        Concl p B ra Γ env0 F D o pc0 e0 m0 t .div0 :=
+      fun _ _ _ _ m' _ r => ⟨fun h => absurd h (by decide), fun _ => ⟨⟨_, m'⟩, r, by simp [Post]⟩⟩
     cases s with
     | nil =>
       simp only [exec, Option.some.injEq, Prod.mk.injEq] at hex
       obtain ⟨rfl, rfl, rfl⟩ := hex
-      exact ⟨⟨pc, m⟩, by simpa using Reach.refl, by simp [Post, cS]; exact hinv⟩
+      exact ⟨fun h => absurd h (by decide), fun _ => ⟨⟨pc, m⟩, by simpa using Reach.refl, by simp [Post, cS]; exact hinv⟩⟩
     | ret =>
       simp only [exec, Option.some.injEq, Prod.mk.injEq] at hex
       obtain ⟨rfl, rfl, rfl⟩ := hex
@@ -47,36 +92,42 @@ theorem cS_ok (lib : Placed p B) (F D ra : Nat) (hra : ra < 256 ^ p.w) :
         (by rw [ev_st (by unfold Prog.M; omega) (by omega), Mem.readLE_writeLE_same _ _ _ _ (by omega)])
       rw [Nat.mod_eq_of_lt hra] at s1
       have s2 := step_halt (m := m.writeLE (3 * p.w) p.w ra) c2
-      refine ⟨⟨ra, m.writeLE (3 * p.w) p.w ra⟩, ?_, by simp [Post]⟩
+      refine ⟨fun h => absurd h (by decide), fun _ => ⟨⟨ra, m.writeLE (3 * p.w) p.w ra⟩, ?_, by simp [Post]⟩⟩
       have := (Reach.of_next (sys := sphinx p) s0).trans (Reach.jump_taken (sys := sphinx p) s1 s2)
       simpa [evl] using this
     | decl x e k =>
       simp only [wfS, Bool.and_eq_true, Bool.not_eq_true'] at hwf
       obtain ⟨⟨hbe, hxn⟩, hwk⟩ := hwf
       simp only [pkS] at hpk
-      simp only [cS] at hpl hB ⊢
+      simp only [cS] at hpl hB hs ⊢
       obtain ⟨hpl1, hpl2⟩ := hpl.append
-      rw [List.length_append] at hB ⊢
+      rw [List.length_append] at hB hs ⊢
       have hp := pushE_ok (ck := ck) lib Γ env F D e pc o m hpl1 (by omega) hinv.fr hinv.vars hbe (by omega) ho
       cases hev : evalE (256 ^ p.w) (8 * p.w) env e with
       | none =>
         simp only [exec, hev, Option.some.injEq, Prod.mk.injEq] at hex
         obtain ⟨rfl, rfl, rfl⟩ := hex
         obtain ⟨m', r⟩ := hp.2 hev (hck rfl)
-        exact ⟨⟨_, m'⟩, r, by simp [Post]⟩
+        exact fault _ _ _ _ m' _ r
       | some v =>
         simp only [exec, hev] at hex
         obtain ⟨m1, r1, k1, hval⟩ := hp.1 v hev
         obtain ⟨hinv1, hd1⟩ := decl_inv hinv hd x v k1 hval hxn ho
-        obtain ⟨st', r2, hpost⟩ := ih k ((x, o + p.w) :: Γ) (upd env x v) _ (o + p.w) m1 env' tr res hpl2 (by omega)
+        have conv : ∀ (e1 e2 : Nat), e1 = e2 → ∀ st', Post p B ra ((x, o + p.w) :: Γ) env' F D (o + p.w) e1 res st' →
+            Post p B ra Γ env' F D o e2 res st' := by
+          intro e1 e2 he st' hpost
+          subst he
+          cases res with
+          | norm =>
+            simp only [Post] at hpost ⊢
+            exact ⟨hpost.1, decl_back hinv x hpost.2 hxn⟩
+          | returned => simpa [Post] using hpost
+          | div0 => simpa [Post] using hpost
+          | defeat => simpa [Post] using hpost
+        have hk := ih k ((x, o + p.w) :: Γ) (upd env x v) _ (o + p.w) m1 env' tr res hpl2 (by omega)
           hinv1 hd1 (by simpa using hwk) (by omega) (by omega) hex hck
-        refine ⟨st', by simpa using r1.trans r2, ?_⟩
-        cases res with
-        | norm =>
-          simp only [Post] at hpost ⊢
-          exact ⟨by rw [hpost.1]; omega, decl_back hinv x hpost.2 hxn⟩
-        | returned => simpa [Post] using hpost
-        | div0 => simpa [Post] using hpost
+          (hs.sub (by simp [noTry]) (by simp [youLevel]) (conv _ _ (by omega)))
+        simpa using Concl.pre r1 hk (conv _ _ (by omega))
     | assign x e k =>
       simp only [wfS, Bool.and_eq_true] at hwf
       obtain ⟨⟨hxin, hbe⟩, hwk⟩ := hwf
@@ -90,17 +141,17 @@ theorem cS_ok (lib : Placed p B) (F D ra : Nat) (hra : ra < 256 ^ p.w) :
           = (c ++ [stSlot (cxOf p ck B) (look Γ x) (v'.arg (cxOf p ck B))]) ++
               cS (cxOf p ck B) Γ (pc + (c ++ [stSlot (cxOf p ck B) (look Γ x) (v'.arg (cxOf p ck B))]).length) o k := by
         simp only [cS]; rw [show (cxOf p ck B).r1 = 3 * p.w from rfl, hgv]
-      rw [hcode] at hpl hB ⊢
+      rw [hcode] at hpl hB hs ⊢
       obtain ⟨hpl12, hpl3⟩ := hpl.append
       obtain ⟨hpl1, hpl2⟩ := hpl12.append
-      simp only [List.length_append, List.length_cons, List.length_nil] at hB hpl3 ⊢
+      simp only [List.length_append, List.length_cons, List.length_nil, Nat.zero_add] at hB hpl3 hs ⊢
       have hg' := hg hpl1 (by omega) (Or.inr trivial) hinv.fr hinv.vars hbe (by omega) ho
       cases hev : evalE (256 ^ p.w) (8 * p.w) env e with
       | none =>
         simp only [exec, hev, Option.some.injEq, Prod.mk.injEq] at hex
         obtain ⟨rfl, rfl, rfl⟩ := hex
         obtain ⟨m', r⟩ := hg'.2 hev (hck rfl)
-        exact ⟨⟨_, m'⟩, r, by simp [Post]⟩
+        exact fault _ _ _ _ m' _ r
       | some v =>
         simp only [exec, hev] at hex
         obtain ⟨m1, r1, k1, harg, hval⟩ := hg'.1 v hev
@@ -115,29 +166,25 @@ theorem cS_ok (lib : Placed p B) (F D ra : Nat) (hra : ra < 256 ^ p.w) :
           | reg a => exact Mem.readLE_lt _ _ _
           | slot s => exact Mem.readLE_lt _ _ _
         have hinv2 := assign_inv hw hinv1 hd x v hvM hxin hoD
-        obtain ⟨st', r2, hpost⟩ := ih k Γ (upd env x v) _ o _ env' tr res hpl3 (by omega)
-          hinv2 hd hwk (by omega) ho hex hck
-        refine ⟨st', by simpa [Nat.add_assoc] using r1.trans (st.trans r2), ?_⟩
-        cases res with
-        | norm =>
-          simp only [Post] at hpost ⊢
-          exact ⟨by rw [hpost.1]; omega, hpost.2⟩
-        | returned => simpa [Post] using hpost
-        | div0 => simpa [Post] using hpost
+        have hk := ih k Γ (upd env x v) _ o _ env' tr res hpl3 (by omega)
+          hinv2 hd hwk (by omega) ho hex hck (hs.sub (by simp [noTry]) (by simp [youLevel]) (post_conv (by omega)))
+        have r01 : Reach (sphinx p) ⟨pc, m⟩ [] ⟨pc + (c.length + 1), m1.writeLE (F - look Γ x) p.w v⟩ := by
+          simpa [Nat.add_assoc] using r1.trans st
+        simpa using Concl.pre r01 hk (post_conv (by omega))
     | write e k =>
       simp only [wfS, Bool.and_eq_true] at hwf
       obtain ⟨hbe, hwk⟩ := hwf
       simp only [pkS] at hpk
-      simp only [cS] at hpl hB ⊢
+      simp only [cS] at hpl hB hs ⊢
       obtain ⟨hpl1, hpl2⟩ := hpl.append
-      rw [List.length_append] at hB ⊢
+      rw [List.length_append] at hB hs ⊢
       have hwr := cWrite_ok (ck := ck) lib Γ env F D e pc o m hpl1 (by omega) hinv.fr hinv.vars hbe (by omega) ho
       cases hev : evalE (256 ^ p.w) (8 * p.w) env e with
       | none =>
         simp only [exec, hev, Option.some.injEq, Prod.mk.injEq] at hex
         obtain ⟨rfl, rfl, rfl⟩ := hex
         obtain ⟨m', r⟩ := hwr.2 hev (hck rfl)
-        exact ⟨⟨_, m'⟩, r, by simp [Post]⟩
+        exact fault _ _ _ _ m' _ r
       | some v =>
         simp only [exec, hev] at hex
         cases hk : exec (256 ^ p.w) (8 * p.w) f env k with
@@ -147,26 +194,20 @@ theorem cS_ok (lib : Placed p B) (F D ra : Nat) (hra : ra < 256 ^ p.w) :
           simp only [hk, Option.bind_eq_bind, Option.bind_some, Option.pure_def, Option.some.injEq, Prod.mk.injEq] at hex
           obtain ⟨rfl, rfl, rfl⟩ := hex
           obtain ⟨m1, r1, k1⟩ := hwr.1 v hev
-          obtain ⟨st', r2, hpost⟩ := ih k Γ env _ o m1 envk trk resk hpl2 (by omega)
-            (hinv.keep k1 ho) hd hwk (by omega) ho hk hck
-          refine ⟨st', r1.trans r2, ?_⟩
-          cases resk with
-          | norm =>
-            simp only [Post] at hpost ⊢
-            exact ⟨by rw [hpost.1]; omega, hpost.2⟩
-          | returned => simpa [Post] using hpost
-          | div0 => simpa [Post] using hpost
+          have hkk := ih k Γ env _ o m1 envk trk resk hpl2 (by omega)
+            (hinv.keep k1 ho) hd hwk (by omega) ho hk hck (hs.sub (by simp [noTry]) (by simp [youLevel]) (post_conv (by omega)))
+          exact Concl.pre r1 hkk (post_conv (by omega))
     | writeln e k =>
       cases e with
       | none =>
         simp only [wfS] at hwf
         simp only [pkS] at hpk
-        simp only [cS] at hpl hB ⊢
+        simp only [cS] at hpl hB hs ⊢
         have c0 := hpl 0 (by simp)
         simp only [List.getElem_cons_zero, Nat.add_zero] at c0
         have hpl2 : PlacedAt p (pc + 1) (cS (cxOf p ck B) Γ (pc + 1) o k) := by
           have := (hpl.append (l₁ := [Instr.yld (.imm 10)])).2; simpa using this
-        simp only [List.length_cons] at hB ⊢
+        simp only [List.length_cons] at hB hs ⊢
         simp only [exec] at hex
         cases hk : exec (256 ^ p.w) (8 * p.w) f env k with
         | none => simp [hk] at hex
@@ -176,29 +217,24 @@ theorem cS_ok (lib : Placed p B) (F D ra : Nat) (hra : ra < 256 ^ p.w) :
           obtain ⟨rfl, rfl, rfl⟩ := hex
           have y := yld_reach (p := p) pc 10 m c0
           rw [show 10 % p.M % 256 = 10 from by unfold Prog.M; rw [Nat.mod_eq_of_lt (show 10 < 256 ^ p.w by omega)]] at y
-          obtain ⟨st', r2, hpost⟩ := ih k Γ env _ o m envk trk resk hpl2 (by omega) hinv hd hwf hpk ho hk hck
-          refine ⟨st', by simpa using y.trans r2, ?_⟩
-          cases resk with
-          | norm =>
-            simp only [Post] at hpost ⊢
-            exact ⟨by rw [hpost.1]; omega, hpost.2⟩
-          | returned => simpa [Post] using hpost
-          | div0 => simpa [Post] using hpost
+          have hkk := ih k Γ env _ o m envk trk resk hpl2 (by omega) hinv hd hwf hpk ho hk hck
+            (hs.sub (by simp [noTry]) (by simp [youLevel]) (post_conv (by omega)))
+          simpa using Concl.pre y hkk (post_conv (by omega))
       | some e =>
         simp only [wfS, Bool.and_eq_true] at hwf
         obtain ⟨hbe, hwk⟩ := hwf
         simp only [pkS] at hpk
-        simp only [cS] at hpl hB ⊢
+        simp only [cS] at hpl hB hs ⊢
         obtain ⟨hpl12, hpl3⟩ := hpl.append
         obtain ⟨hpl1, hpl2⟩ := hpl12.append
-        simp only [List.length_append, List.length_cons, List.length_nil] at hB hpl3 ⊢
+        simp only [List.length_append, List.length_cons, List.length_nil, Nat.zero_add] at hB hpl3 hs ⊢
         have hwr := cWrite_ok (ck := ck) lib Γ env F D e pc o m hpl1 (by omega) hinv.fr hinv.vars hbe (by omega) ho
         cases hev : evalE (256 ^ p.w) (8 * p.w) env e with
         | none =>
           simp only [exec, hev, Option.some.injEq, Prod.mk.injEq] at hex
           obtain ⟨rfl, rfl, rfl⟩ := hex
           obtain ⟨m', r⟩ := hwr.2 hev (hck rfl)
-          exact ⟨⟨_, m'⟩, r, by simp [Post]⟩
+          exact fault _ _ _ _ m' _ r
         | some v =>
           simp only [exec, hev] at hex
           cases hk : exec (256 ^ p.w) (8 * p.w) f env k with
@@ -210,24 +246,21 @@ theorem cS_ok (lib : Placed p B) (F D ra : Nat) (hra : ra < 256 ^ p.w) :
             obtain ⟨m1, r1, k1⟩ := hwr.1 v hev
             have y := yld_reach (p := p) (pc + (cWrite (cxOf p ck B) Γ pc o e).length) 10 m1 (placed_one hpl2)
             rw [show 10 % p.M % 256 = 10 from by unfold Prog.M; rw [Nat.mod_eq_of_lt (show 10 < 256 ^ p.w by omega)]] at y
-            obtain ⟨st', r2, hpost⟩ := ih k Γ env _ o m1 envk trk resk hpl3 (by omega)
-              (hinv.keep k1 ho) hd hwk (by omega) ho hk hck
-            refine ⟨st', by simpa [Nat.add_assoc] using r1.trans (y.trans r2), ?_⟩
-            cases resk with
-            | norm =>
-              simp only [Post] at hpost ⊢
-              exact ⟨by rw [hpost.1]; omega, hpost.2⟩
-            | returned => simpa [Post] using hpost
-            | div0 => simpa [Post] using hpost
+            have hkk := ih k Γ env _ o m1 envk trk resk hpl3 (by omega)
+              (hinv.keep k1 ho) hd hwk (by omega) ho hk hck (hs.sub (by simp [noTry]) (by simp [youLevel]) (post_conv (by omega)))
+            have r01 : Reach (sphinx p) ⟨pc, m⟩ (outs (decimalW (256 ^ p.w) v) ++ [Ev.out 10])
+                ⟨pc + ((cWrite (cxOf p ck B) Γ pc o e).length + 1), m1⟩ := by
+              simpa [Nat.add_assoc] using r1.trans y
+            simpa [List.append_assoc] using Concl.pre r01 hkk (post_conv (by omega))
     | putc c k =>
       simp only [wfS] at hwf
       simp only [pkS] at hpk
-      simp only [cS] at hpl hB ⊢
+      simp only [cS] at hpl hB hs ⊢
       have c0 := hpl 0 (by simp)
       simp only [List.getElem_cons_zero, Nat.add_zero] at c0
       have hpl2 : PlacedAt p (pc + 1) (cS (cxOf p ck B) Γ (pc + 1) o k) := by
         have := (hpl.append (l₁ := [Instr.yld (.imm (c % (cxOf p ck B).M))])).2; simpa using this
-      simp only [List.length_cons] at hB ⊢
+      simp only [List.length_cons] at hB hs ⊢
       simp only [exec] at hex
       cases hk : exec (256 ^ p.w) (8 * p.w) f env k with
       | none => simp [hk] at hex
@@ -238,20 +271,15 @@ theorem cS_ok (lib : Placed p B) (F D ra : Nat) (hra : ra < 256 ^ p.w) :
         have y := yld_reach (p := p) pc _ m c0
         rw [show c % (cxOf p ck B).M % p.M % 256 = c % 256 ^ p.w % 256 from by
           unfold Prog.M; show c % 256 ^ p.w % 256 ^ p.w % 256 = _; rw [Nat.mod_mod]] at y
-        obtain ⟨st', r2, hpost⟩ := ih k Γ env _ o m envk trk resk hpl2 (by omega) hinv hd hwf hpk ho hk hck
-        refine ⟨st', by simpa using y.trans r2, ?_⟩
-        cases resk with
-        | norm =>
-          simp only [Post] at hpost ⊢
-          exact ⟨by rw [hpost.1]; omega, hpost.2⟩
-        | returned => simpa [Post] using hpost
-        | div0 => simpa [Post] using hpost
+        have hkk := ih k Γ env _ o m envk trk resk hpl2 (by omega) hinv hd hwf hpk ho hk hck
+          (hs.sub (by simp [noTry]) (by simp [youLevel]) (post_conv (by omega)))
+        simpa using Concl.pre y hkk (post_conv (by omega))
     | block b k =>
       simp only [wfS, Bool.and_eq_true] at hwf
       simp only [pkS] at hpk
-      simp only [cS] at hpl hB ⊢
+      simp only [cS] at hpl hB hs ⊢
       obtain ⟨hpl1, hpl2⟩ := hpl.append
-      rw [List.length_append] at hB ⊢
+      rw [List.length_append] at hB hs ⊢
       simp only [exec] at hex
       cases hb1 : exec (256 ^ p.w) (8 * p.w) f env b with
       | none => simp [hb1] at hex
@@ -267,33 +295,83 @@ theorem cS_ok (lib : Placed p B) (F D ra : Nat) (hra : ra < 256 ^ p.w) :
             obtain ⟨envk, trk, resk⟩ := rk
             simp only [hk, Option.bind_some, Option.pure_def, Option.some.injEq, Prod.mk.injEq] at hex
             obtain ⟨rfl, rfl, rfl⟩ := hex
-            obtain ⟨st1, r1, hpost1⟩ := ih b Γ env pc o m env1 tr1 .norm hpl1 (by omega) hinv hd hwf.1 (by omega) ho hb1 (by simp)
-            simp only [Post] at hpost1
+            have hsk : Safe p B ra Γ envk F D o (pc + (cS (cxOf p ck B) Γ pc o b).length +
+                (cS (cxOf p ck B) Γ (pc + (cS (cxOf p ck B) Γ pc o b).length) o k).length) resk k :=
+              hs.sub (k := k) (by simp only [noTry, Bool.and_eq_true]; exact fun h => h.2)
+                (by simp only [youLevel, Bool.and_eq_true]; exact fun h => h.2) (post_conv (by omega))
+            have hsb : Safe p B ra Γ env1 F D o (pc + (cS (cxOf p ck B) Γ pc o b).length) .norm b := by
+              rcases hs with h | ⟨h1, h2⟩
+              · left; simp only [noTry, Bool.and_eq_true] at h; exact h.1
+              · right
+                simp only [youLevel, Bool.and_eq_true] at h1
+                refine ⟨h1.1, fun st1 hp1 => ?_⟩
+                obtain ⟨pc1, m1⟩ := st1
+                simp only [Post] at hp1
+                obtain ⟨hpc1, hi1⟩ := hp1
+                subst hpc1
+                have hkk := ih k Γ env1 (pc + (cS (cxOf p ck B) Γ pc o b).length) o m1 envk trk resk hpl2 (by omega) hi1 hd hwf.2 (by omega) ho hk hck hsk
+                obtain ⟨st', r2, hp2⟩ := hkk.2 (exec_no_defeat _ _ _ _ _ _ _ _ h1.2 hk)
+                exact (r2.exec (h2 st' (by refine post_conv ?_ st' hp2; omega))).2
+            have hbb := ih b Γ env pc o m env1 tr1 .norm hpl1 (by omega) hinv hd hwf.1 (by omega) ho hb1 (by simp) hsb
+            obtain ⟨st1, r1, hp1⟩ := hbb.2 (by decide)
             obtain ⟨pc1, m1⟩ := st1
-            simp only at hpost1
-            obtain ⟨hpc1, hinv1⟩ := hpost1
+            simp only [Post] at hp1
+            obtain ⟨hpc1, hi1⟩ := hp1
             subst hpc1
-            obtain ⟨st', r2, hpost⟩ := ih k Γ env1 _ o m1 envk trk resk hpl2 (by omega) hinv1 hd hwf.2 (by omega) ho hk hck
-            refine ⟨st', r1.trans r2, ?_⟩
-            cases resk with
-            | norm =>
-              simp only [Post] at hpost ⊢
-              exact ⟨by rw [hpost.1]; omega, hpost.2⟩
-            | returned => simpa [Post] using hpost
-            | div0 => simpa [Post] using hpost
+            have hkk := ih k Γ env1 (pc + (cS (cxOf p ck B) Γ pc o b).length) o m1 envk trk resk hpl2 (by omega) hi1 hd hwf.2 (by omega) ho hk hck hsk
+            exact Concl.pre r1 hkk (post_conv (by omega))
         · simp only [hn, if_false, Option.pure_def, Option.some.injEq, Prod.mk.injEq] at hex
           obtain ⟨rfl, rfl, rfl⟩ := hex
-          obtain ⟨st1, r1, hpost1⟩ := ih b Γ env pc o m env1 tr1 res1 hpl1 (by omega) hinv hd hwf.1 (by omega) ho hb1 hck
-          refine ⟨st1, r1, ?_⟩
-          cases res1 with
-          | norm => exact absurd rfl hn
-          | returned => simpa [Post] using hpost1
-          | div0 => simpa [Post] using hpost1
+          have convb : ∀ st', Post p B ra Γ env1 F D o (pc + (cS (cxOf p ck B) Γ pc o b).length) res1 st' →
+              Post p B ra Γ env1 F D o (pc + ((cS (cxOf p ck B) Γ pc o b).length + (cS (cxOf p ck B) Γ (pc + (cS (cxOf p ck B) Γ pc o b).length) o k).length)) res1 st' := by
+            intro st' h
+            cases res1 with
+            | norm => exact absurd rfl hn
+            | returned => simpa [Post] using h
+            | div0 => simpa [Post] using h
+            | defeat => simpa [Post] using h
+          have hbb := ih b Γ env pc o m env1 tr1 res1 hpl1 (by omega) hinv hd hwf.1 (by omega) ho hb1 hck
+            (hs.sub (by simp only [noTry, Bool.and_eq_true]; exact fun h => h.1)
+              (by simp only [youLevel, Bool.and_eq_true]; exact fun h => h.1) convb)
+          exact ⟨hbb.1, fun hnd => by obtain ⟨st1, r1, hp1⟩ := hbb.2 hnd; exact ⟨st1, r1, convb st1 hp1⟩⟩
+    | defeat k =>
+      simp only [exec, Option.some.injEq, Prod.mk.injEq] at hex
+      obtain ⟨rfl, rfl, rfl⟩ := hex
+      simp only [cS] at hpl
+      have c0 := hpl 0 (by simp)
+      simp only [List.getElem_cons_zero, Nat.add_zero] at c0
+      exact ⟨fun _ => Halts.halt (sys := sphinx p) (step_halt (m := m) c0), fun h => absurd rfl h⟩
+    | defeatIf c k =>
+      simp only [wfS, Bool.and_eq_true] at hwf
+      obtain ⟨⟨hbc, hdc⟩, hwk⟩ := hwf
+      simp only [pkS] at hpk
+      simp only [cS] at hpl hB hs ⊢
+      obtain ⟨hpl1, hpl2⟩ := hpl.append
+      rw [List.length_append] at hB hs ⊢
+      have hcd := cD_ok (ck := ck) lib Γ env F D c pc o m hdc hpl1 (by omega) hinv.fr hinv.vars hbc (by omega) ho
+      cases hev : evalB (256 ^ p.w) (8 * p.w) env c with
+      | none =>
+        simp only [exec, hev, Option.some.injEq, Prod.mk.injEq] at hex
+        obtain ⟨rfl, rfl, rfl⟩ := hex
+        obtain ⟨m', r⟩ := hcd.2.2 hev (hck rfl)
+        exact fault _ _ _ _ m' _ r
+      | some cv =>
+        cases cv with
+        | true =>
+          simp only [exec, hev, Option.some.injEq, Prod.mk.injEq] at hex
+          obtain ⟨rfl, rfl, rfl⟩ := hex
+          exact ⟨fun _ => hcd.2.1 hev, fun h => absurd rfl h⟩
+        | false =>
+          simp only [exec, hev] at hex
+          obtain ⟨m1, r1, k1⟩ := hcd.1 hev
+          have hkk := ih k Γ env _ o m1 env' tr res hpl2 (by omega) (hinv.keep k1 ho) hd hwk (by omega) ho hex hck
+            (hs.sub (by simp [noTry]) (by simp [youLevel]) (post_conv (by omega)))
+          simpa using Concl.pre r1 hkk (post_conv (by omega))
     | ifb c t e k =>
       simp only [wfS, Bool.and_eq_true] at hwf
       obtain ⟨⟨⟨hbc, hwt⟩, hwe⟩, hwk⟩ := hwf
       simp only [pkS] at hpk
-      simp only [cS] at hpl hB ⊢
+      simp only [cS] at hpl hB hs ⊢
       have hlenA : (cB (cxOf p ck B) Γ pc o c [] (goto (pc + lenB ck c 0 2 false true + lenS ck t + 2))).length
           = lenB ck c 0 2 false true := by rw [cB_len]; simp
       generalize hnC : lenB ck c 0 2 false true = nC at *
@@ -305,7 +383,7 @@ theorem cS_ok (lib : Placed p B) (F D ra : Nat) (hra : ra < 256 ^ p.w) :
       obtain ⟨hpl123, hplE⟩ := hpl1234.append
       obtain ⟨hpl12, hplG⟩ := hpl123.append
       obtain ⟨hplA, hplT⟩ := hpl12.append
-      simp only [List.length_append, hlenA, hlenT, hlenE, goto_len, ← Nat.add_assoc] at hB hplK hplE hplG hplT ⊢
+      simp only [List.length_append, hlenA, hlenT, hlenE, goto_len, ← Nat.add_assoc] at hB hplK hplE hplG hplT hs ⊢
       have hendM : pc + nC + nT + 2 + nE < 256 ^ p.w := by simp [stdlibLength] at hBM; omega
       have hc := cB_ok (ck := ck) lib Γ env F D c pc o none (some (pc + nC + nT + 2)) m hplA (by rw [brCode, brCode, hlenA]; omega)
         (fun x hx => by simp at hx) (fun x hx => by simp at hx; omega) hinv.fr hinv.vars hbc (by omega) ho
@@ -315,89 +393,147 @@ theorem cS_ok (lib : Placed p B) (F D ra : Nat) (hra : ra < 256 ^ p.w) :
         simp only [exec, hev, Option.some.injEq, Prod.mk.injEq] at hex
         obtain ⟨rfl, rfl, rfl⟩ := hex
         obtain ⟨m', r⟩ := hc.2 hev (hck rfl)
-        exact ⟨⟨_, m'⟩, r, by simp [Post]⟩
+        exact fault _ _ _ _ m' _ r
       | some cv =>
         simp only [exec, hev] at hex
         obtain ⟨m0, r0, k0⟩ := hc.1 cv hev
         have hinv0 := hinv.keep k0 ho
-        cases hb1 : exec (256 ^ p.w) (8 * p.w) f env (if cv = true then t else e) with
-        | none => simp [hb1] at hex
-        | some rb =>
-          obtain ⟨env1, tr1, res1⟩ := rb
-          simp only [hb1, Option.bind_eq_bind, Option.bind_some] at hex
-          -- the chosen branch, and where it ends
-          have hbr : ∃ st1, Reach (sphinx p) ⟨pc, m⟩ tr1 st1 ∧
-              Post p B ra Γ env1 F D o (pc + nC + nT + 2 + nE) res1 st1 := by
-            cases cv with
-            | true =>
-              simp only [if_true] at hb1
-              simp only [if_true, Option.getD_none] at r0
-              obtain ⟨st1, r1, hp1⟩ := ih t Γ env (pc + nC) o m0 env1 tr1 res1 hplT (by rw [hlenT]; omega) hinv0 hd hwt (by omega) ho hb1
-                (fun h => hck (by
-                  subst h
-                  simp only [show ¬ (Res.div0 = Res.norm) by decide, if_false, Option.pure_def, Option.some.injEq, Prod.mk.injEq] at hex
-                  exact hex.2.2.symm))
-              rw [hlenT] at hp1
-              cases res1 with
-              | norm =>
-                simp only [Post] at hp1
+        -- the continuation after the `if`, from any state matching `env1` at `end_else`
+        have contK : ∀ (env1 : Env) (m1 : Mem) (envk : Env) (trk : List Ev) (resk : Res),
+            SInv p Γ env1 m1 F D o ra → exec (256 ^ p.w) (8 * p.w) f env1 k = some (envk, trk, resk) →
+            (resk = .div0 → ck = true) →
+            Safe p B ra Γ envk F D o (pc + nC + nT + 2 + nE + (cS (cxOf p ck B) Γ (pc + nC + nT + 2 + nE) o k).length) resk k →
+            Concl p B ra Γ envk F D o (pc + nC + nT + 2 + nE)
+              (pc + nC + nT + 2 + nE + (cS (cxOf p ck B) Γ (pc + nC + nT + 2 + nE) o k).length) m1 trk resk :=
+          fun env1 m1 envk trk resk hi1 hk hckk hsk =>
+            ih k Γ env1 _ o m1 envk trk resk hplK (by omega) hi1 hd hwk (by omega) ho hk hckk hsk
+        cases cv with
+        | true =>
+          simp only [if_true, Option.getD_none] at r0
+          simp only [if_true] at hex
+          cases hb1 : exec (256 ^ p.w) (8 * p.w) f env t with
+          | none => simp [hb1] at hex
+          | some rb =>
+            obtain ⟨env1, tr1, res1⟩ := rb
+            simp only [hb1, Option.bind_eq_bind, Option.bind_some] at hex
+            by_cases hn : res1 = .norm
+            · subst hn
+              simp only [if_true] at hex
+              cases hk : exec (256 ^ p.w) (8 * p.w) f env1 k with
+              | none => simp [hk] at hex
+              | some rk =>
+                obtain ⟨envk, trk, resk⟩ := rk
+                simp only [hk, Option.bind_some, Option.pure_def, Option.some.injEq, Prod.mk.injEq] at hex
+                obtain ⟨rfl, rfl, rfl⟩ := hex
+                have hsk : Safe p B ra Γ envk F D o (pc + nC + nT + 2 + nE +
+                    (cS (cxOf p ck B) Γ (pc + nC + nT + 2 + nE) o k).length) resk k :=
+                  hs.sub (k := k) (by simp only [noTry, Bool.and_eq_true]; exact fun h => h.2)
+                    (by simp only [youLevel, Bool.and_eq_true]; exact fun h => h.2) (post_conv (by omega))
+                have hst : Safe p B ra Γ env1 F D o (pc + nC + nT) .norm t := by
+                  rcases hs with h | ⟨h1, h2⟩
+                  · left; simp only [noTry, Bool.and_eq_true] at h; exact h.1.1
+                  · right
+                    simp only [youLevel, Bool.and_eq_true] at h1
+                    refine ⟨h1.1.1, fun st1 hp1 => ?_⟩
+                    obtain ⟨pc1, m1⟩ := st1
+                    simp only [Post] at hp1
+                    obtain ⟨hpc1, hi1⟩ := hp1
+                    subst hpc1
+                    have g := goto_reach lib (pc + nC + nT) (pc + nC + nT + 2 + nE) m1 hplG hendM
+                    obtain ⟨st', r2, hp2⟩ := (contK env1 m1 envk trk resk hi1 hk hck hsk).2 (exec_no_defeat _ _ _ _ _ _ _ _ h1.2 hk)
+                    exact ((g.trans r2).exec (h2 st' (by refine post_conv ?_ st' hp2; omega))).2
+                have htt := ih t Γ env (pc + nC) o m0 env1 tr1 .norm hplT (by rw [hlenT]; omega) hinv0 hd hwt (by omega) ho hb1 (by simp)
+                  (by rw [hlenT]; exact hst)
+                rw [hlenT] at htt
+                obtain ⟨st1, r1, hp1⟩ := htt.2 (by decide)
                 obtain ⟨pc1, m1⟩ := st1
-                simp only at hp1
+                simp only [Post] at hp1
                 obtain ⟨hpc1, hi1⟩ := hp1
                 subst hpc1
                 have g := goto_reach lib (pc + nC + nT) (pc + nC + nT + 2 + nE) m1 hplG hendM
-                exact ⟨⟨_, m1⟩, by simpa using r0.trans (r1.trans g), by simp [Post]; exact hi1⟩
-              | returned => exact ⟨st1, by simpa using r0.trans r1, by simpa [Post] using hp1⟩
-              | div0 => exact ⟨st1, by simpa using r0.trans r1, by simpa [Post] using hp1⟩
-            | false =>
-              simp only [Bool.false_eq_true, if_false] at hb1
-              simp only [Bool.false_eq_true, if_false, Option.getD_some] at r0
-              obtain ⟨st1, r1, hp1⟩ := ih e Γ env (pc + nC + nT + 2) o m0 env1 tr1 res1 hplE (by rw [hlenE]; omega) hinv0 hd hwe (by omega) ho hb1
-                (fun h => hck (by
-                  subst h
-                  simp only [show ¬ (Res.div0 = Res.norm) by decide, if_false, Option.pure_def, Option.some.injEq, Prod.mk.injEq] at hex
-                  exact hex.2.2.symm))
-              rw [hlenE] at hp1
-              exact ⟨st1, by simpa using r0.trans r1, hp1⟩
-          obtain ⟨st1, r1, hp1⟩ := hbr
-          by_cases hn : res1 = .norm
-          · subst hn
-            simp only [if_true] at hex
-            cases hk : exec (256 ^ p.w) (8 * p.w) f env1 k with
-            | none => simp [hk] at hex
-            | some rk =>
-              obtain ⟨envk, trk, resk⟩ := rk
-              simp only [hk, Option.bind_some, Option.pure_def, Option.some.injEq, Prod.mk.injEq] at hex
+                have r01 : Reach (sphinx p) ⟨pc, m⟩ tr1 ⟨pc + nC + nT + 2 + nE, m1⟩ := by
+                  simpa using r0.trans (r1.trans g)
+                exact Concl.pre r01 (contK env1 m1 envk trk resk hi1 hk hck hsk) (post_conv (by omega))
+            · simp only [hn, if_false, Option.pure_def, Option.some.injEq, Prod.mk.injEq] at hex
               obtain ⟨rfl, rfl, rfl⟩ := hex
-              simp only [Post] at hp1
-              obtain ⟨pc1, m1⟩ := st1
-              simp only at hp1
-              obtain ⟨hpc1, hi1⟩ := hp1
-              subst hpc1
-              obtain ⟨st', r2, hpost⟩ := ih k Γ env1 (pc + nC + nT + 2 + nE) o m1 envk trk resk hplK (by omega) hi1 hd hwk (by omega) ho hk hck
-              refine ⟨st', r1.trans r2, ?_⟩
-              cases resk with
-              | norm =>
-                simp only [Post] at hpost ⊢
-                exact ⟨by have := hpost.1; omega, hpost.2⟩
-              | returned => simpa [Post] using hpost
-              | div0 => simpa [Post] using hpost
-          · simp only [hn, if_false, Option.pure_def, Option.some.injEq, Prod.mk.injEq] at hex
-            obtain ⟨rfl, rfl, rfl⟩ := hex
-            refine ⟨st1, r1, ?_⟩
-            cases res1 with
-            | norm => exact absurd rfl hn
-            | returned => simpa [Post] using hp1
-            | div0 => simpa [Post] using hp1
+              have convt : ∀ (e1 e2 : Nat) st', Post p B ra Γ env1 F D o e1 res1 st' → Post p B ra Γ env1 F D o e2 res1 st' := by
+                intro e1 e2 st' h
+                cases res1 with
+                | norm => exact absurd rfl hn
+                | returned => simpa [Post] using h
+                | div0 => simpa [Post] using h
+                | defeat => simpa [Post] using h
+              have htt := ih t Γ env (pc + nC) o m0 env1 tr1 res1 hplT (by rw [hlenT]; omega) hinv0 hd hwt (by omega) ho hb1 hck
+                (hs.sub (by simp only [noTry, Bool.and_eq_true]; exact fun h => h.1.1)
+                  (by simp only [youLevel, Bool.and_eq_true]; exact fun h => h.1.1) (convt _ _))
+              simpa using Concl.pre r0 htt (convt _ _)
+        | false =>
+          simp only [Bool.false_eq_true, if_false, Option.getD_some] at r0
+          simp only [Bool.false_eq_true, if_false] at hex
+          cases hb1 : exec (256 ^ p.w) (8 * p.w) f env e with
+          | none => simp [hb1] at hex
+          | some rb =>
+            obtain ⟨env1, tr1, res1⟩ := rb
+            simp only [hb1, Option.bind_eq_bind, Option.bind_some] at hex
+            by_cases hn : res1 = .norm
+            · subst hn
+              simp only [if_true] at hex
+              cases hk : exec (256 ^ p.w) (8 * p.w) f env1 k with
+              | none => simp [hk] at hex
+              | some rk =>
+                obtain ⟨envk, trk, resk⟩ := rk
+                simp only [hk, Option.bind_some, Option.pure_def, Option.some.injEq, Prod.mk.injEq] at hex
+                obtain ⟨rfl, rfl, rfl⟩ := hex
+                have hsk : Safe p B ra Γ envk F D o (pc + nC + nT + 2 + nE +
+                    (cS (cxOf p ck B) Γ (pc + nC + nT + 2 + nE) o k).length) resk k :=
+                  hs.sub (k := k) (by simp only [noTry, Bool.and_eq_true]; exact fun h => h.2)
+                    (by simp only [youLevel, Bool.and_eq_true]; exact fun h => h.2) (post_conv (by omega))
+                have hse : Safe p B ra Γ env1 F D o (pc + nC + nT + 2 + nE) .norm e := by
+                  rcases hs with h | ⟨h1, h2⟩
+                  · left; simp only [noTry, Bool.and_eq_true] at h; exact h.1.2
+                  · right
+                    simp only [youLevel, Bool.and_eq_true] at h1
+                    refine ⟨h1.1.2, fun st1 hp1 => ?_⟩
+                    obtain ⟨pc1, m1⟩ := st1
+                    simp only [Post] at hp1
+                    obtain ⟨hpc1, hi1⟩ := hp1
+                    subst hpc1
+                    obtain ⟨st', r2, hp2⟩ := (contK env1 m1 envk trk resk hi1 hk hck hsk).2 (exec_no_defeat _ _ _ _ _ _ _ _ h1.2 hk)
+                    exact (r2.exec (h2 st' (by refine post_conv ?_ st' hp2; omega))).2
+                have hee := ih e Γ env (pc + nC + nT + 2) o m0 env1 tr1 .norm hplE (by rw [hlenE]; omega) hinv0 hd hwe (by omega) ho hb1 (by simp)
+                  (by rw [hlenE]; exact hse)
+                rw [hlenE] at hee
+                obtain ⟨st1, r1, hp1⟩ := hee.2 (by decide)
+                obtain ⟨pc1, m1⟩ := st1
+                simp only [Post] at hp1
+                obtain ⟨hpc1, hi1⟩ := hp1
+                subst hpc1
+                have r01 : Reach (sphinx p) ⟨pc, m⟩ tr1 ⟨pc + nC + nT + 2 + nE, m1⟩ := by
+                  simpa using r0.trans r1
+                exact Concl.pre r01 (contK env1 m1 envk trk resk hi1 hk hck hsk) (post_conv (by omega))
+            · simp only [hn, if_false, Option.pure_def, Option.some.injEq, Prod.mk.injEq] at hex
+              obtain ⟨rfl, rfl, rfl⟩ := hex
+              have convt : ∀ (e1 e2 : Nat) st', Post p B ra Γ env1 F D o e1 res1 st' → Post p B ra Γ env1 F D o e2 res1 st' := by
+                intro e1 e2 st' h
+                cases res1 with
+                | norm => exact absurd rfl hn
+                | returned => simpa [Post] using h
+                | div0 => simpa [Post] using h
+                | defeat => simpa [Post] using h
+              have hee := ih e Γ env (pc + nC + nT + 2) o m0 env1 tr1 res1 hplE (by rw [hlenE]; omega) hinv0 hd hwe (by omega) ho hb1 hck
+                (hs.sub (by simp only [noTry, Bool.and_eq_true]; exact fun h => h.1.2)
+                  (by simp only [youLevel, Bool.and_eq_true]; exact fun h => h.1.2) (convt _ _))
+              simpa using Concl.pre r0 hee (convt _ _)
     | loop c body cont k =>
       have hwf0 := hwf
       have hpk0 := hpk
       have hpl0 := hpl
       have hB0 := hB
+      have hs0 := hs
       simp only [wfS, Bool.and_eq_true] at hwf
       obtain ⟨⟨⟨hbc, hwb⟩, hwc⟩, hwk⟩ := hwf
       simp only [pkS] at hpk
-      simp only [cS] at hpl hB ⊢
+      simp only [cS] at hpl hB hs ⊢
       have hlenA : (cB (cxOf p ck B) Γ pc o c [] (goto (pc + lenB ck c 0 2 false true + lenS ck body + lenS ck cont + 2))).length
           = lenB ck c 0 2 false true := by rw [cB_len]; simp
       generalize hnC : lenB ck c 0 2 false true = nC at *
@@ -409,8 +545,12 @@ theorem cS_ok (lib : Placed p B) (F D ra : Nat) (hra : ra < 256 ^ p.w) :
       obtain ⟨hpl123, hplG⟩ := hpl1234.append
       obtain ⟨hpl12, hplE⟩ := hpl123.append
       obtain ⟨hplA, hplT⟩ := hpl12.append
-      simp only [List.length_append, hlenA, hlenT, hlenE, goto_len, ← Nat.add_assoc] at hB hplK hplE hplG hplT ⊢
+      simp only [List.length_append, hlenA, hlenT, hlenE, goto_len, ← Nat.add_assoc] at hB hplK hplE hplG hplT hs ⊢
       have hendM : pc + nC + nT + nE + 2 < 256 ^ p.w := by simp [stdlibLength] at hBM; omega
+      have etot : pc + (cS (cxOf p ck B) Γ pc o (.loop c body cont k)).length
+          = pc + nC + nT + nE + 2 + (cS (cxOf p ck B) Γ (pc + nC + nT + nE + 2) o k).length := by
+        simp only [cS, hnC, hnT, hnE, List.length_append, hlenA, hlenT, hlenE, goto_len]; omega
+      rw [etot] at hs0
       have hc := cB_ok (ck := ck) lib Γ env F D c pc o none (some (pc + nC + nT + nE + 2)) m hplA (by rw [brCode, brCode, hlenA]; omega)
         (fun x hx => by simp at hx) (fun x hx => by simp at hx; omega) hinv.fr hinv.vars hbc (by omega) ho
       rw [show (cB (cxOf p ck B) Γ pc o c (brCode none) (brCode (some (pc + nC + nT + nE + 2)))).length = nC from hlenA] at hc
@@ -419,7 +559,7 @@ theorem cS_ok (lib : Placed p B) (F D ra : Nat) (hra : ra < 256 ^ p.w) :
         simp only [exec, hev, Option.some.injEq, Prod.mk.injEq] at hex
         obtain ⟨rfl, rfl, rfl⟩ := hex
         obtain ⟨m', r⟩ := hc.2 hev (hck rfl)
-        exact ⟨⟨_, m'⟩, r, by simp [Post]⟩
+        exact fault _ _ _ _ m' _ r
       | some cv =>
         obtain ⟨m0, r0, k0⟩ := hc.1 cv hev
         have hinv0 := hinv.keep k0 ho
@@ -427,14 +567,10 @@ theorem cS_ok (lib : Placed p B) (F D ra : Nat) (hra : ra < 256 ^ p.w) :
         | false =>
           simp only [exec, hev] at hex
           simp only [Bool.false_eq_true, if_false, Option.getD_some] at r0
-          obtain ⟨st', r2, hpost⟩ := ih k Γ env (pc + nC + nT + nE + 2) o m0 env' tr res hplK (by omega) hinv0 hd hwk (by omega) ho hex hck
-          refine ⟨st', by simpa using r0.trans r2, ?_⟩
-          cases res with
-          | norm =>
-            simp only [Post] at hpost ⊢
-            exact ⟨by have := hpost.1; omega, hpost.2⟩
-          | returned => simpa [Post] using hpost
-          | div0 => simpa [Post] using hpost
+          have hkk := ih k Γ env (pc + nC + nT + nE + 2) o m0 env' tr res hplK (by omega) hinv0 hd hwk (by omega) ho hex hck
+            (hs.sub (by simp only [noTry, Bool.and_eq_true]; exact fun h => h.2)
+              (by simp only [youLevel, Bool.and_eq_true]; exact fun h => h.2) (post_conv rfl))
+          simpa using Concl.pre r0 hkk (post_conv rfl)
         | true =>
           simp only [exec, hev] at hex
           simp only [if_true, Option.getD_none] at r0
@@ -443,16 +579,18 @@ theorem cS_ok (lib : Placed p B) (F D ra : Nat) (hra : ra < 256 ^ p.w) :
           | some rb =>
             obtain ⟨env1, tr1, res1⟩ := rb
             simp only [hb1, Option.bind_eq_bind, Option.bind_some] at hex
+            -- non-normal exits of a part are exits of the whole loop
+            have convN : ∀ (envx : Env) (resx : Res), resx ≠ .norm → ∀ (e1 e2 : Nat) st',
+                Post p B ra Γ envx F D o e1 resx st' → Post p B ra Γ envx F D o e2 resx st' := by
+              intro envx resx hx e1 e2 st' h
+              cases resx with
+              | norm => exact absurd rfl hx
+              | returned => simpa [Post] using h
+              | div0 => simpa [Post] using h
+              | defeat => simpa [Post] using h
             by_cases hn1 : res1 = .norm
             · subst hn1
               simp only [if_true] at hex
-              obtain ⟨st1, r1, hp1⟩ := ih body Γ env (pc + nC) o m0 env1 tr1 .norm hplT (by rw [hlenT]; omega) hinv0 hd hwb (by omega) ho hb1 (by simp)
-              rw [hlenT] at hp1
-              simp only [Post] at hp1
-              obtain ⟨pc1, m1⟩ := st1
-              simp only at hp1
-              obtain ⟨hpc1, hi1⟩ := hp1
-              subst hpc1
               cases hb2 : exec (256 ^ p.w) (8 * p.w) f env1 cont with
               | none => simp [hb2] at hex
               | some rc =>
@@ -461,42 +599,228 @@ theorem cS_ok (lib : Placed p B) (F D ra : Nat) (hra : ra < 256 ^ p.w) :
                 by_cases hn2 : res2 = .norm
                 · subst hn2
                   simp only [if_true] at hex
-                  obtain ⟨st2, r2, hp2⟩ := ih cont Γ env1 (pc + nC + nT) o m1 env2 tr2 .norm hplE (by rw [hlenE]; omega) hi1 hd hwc (by omega) ho hb2 (by simp)
-                  rw [hlenE] at hp2
-                  simp only [Post] at hp2
-                  obtain ⟨pc2, m2⟩ := st2
-                  simp only at hp2
-                  obtain ⟨hpc2, hi2⟩ := hp2
-                  subst hpc2
-                  have g := goto_reach lib (pc + nC + nT + nE) pc m2 hplG (by omega)
                   cases hb3 : exec (256 ^ p.w) (8 * p.w) f env2 (.loop c body cont k) with
                   | none => simp [hb3] at hex
                   | some rl =>
                     obtain ⟨env3, tr3, res3⟩ := rl
                     simp only [hb3, Option.bind_some, Option.pure_def, Option.some.injEq, Prod.mk.injEq] at hex
                     obtain ⟨rfl, rfl, rfl⟩ := hex
-                    obtain ⟨st', r3, hpost⟩ := ih (.loop c body cont k) Γ env2 pc o m2 env3 tr3 res3 hpl0 hB0 hi2 hd hwf0 hpk0 ho hb3 hck
-                    refine ⟨st', by simpa [List.append_assoc] using r0.trans (r1.trans (r2.trans (g.trans r3))), ?_⟩
-                    have e : pc + (cS (cxOf p ck B) Γ pc o (.loop c body cont k)).length
-                        = pc + nC + nT + nE + 2 + (cS (cxOf p ck B) Γ (pc + nC + nT + nE + 2) o k).length := by
-                      simp only [cS, hnC, hnT, hnE, List.length_append, hlenA, hlenT, hlenE, goto_len]; omega
-                    rw [e] at hpost; exact hpost
+                    -- the next round, from any state matching env2
+                    have L : ∀ m2, SInv p Γ env2 m2 F D o ra →
+                        Concl p B ra Γ env3 F D o pc (pc + nC + nT + nE + 2 + (cS (cxOf p ck B) Γ (pc + nC + nT + nE + 2) o k).length) m2 tr3 res3 := by
+                      intro m2 hi2
+                      have := ih (.loop c body cont k) Γ env2 pc o m2 env3 tr3 res3 hpl0 hB0 hi2 hd hwf0 hpk0 ho hb3 hck
+                        (by rw [etot]; exact hs0)
+                      rw [etot] at this; exact this
+                    have hsc : Safe p B ra Γ env2 F D o (pc + nC + nT + nE) .norm cont := by
+                      rcases hs0 with h | ⟨h1, h2⟩
+                      · left; simp only [noTry, Bool.and_eq_true] at h; exact h.1.2
+                      · right
+                        have h1' := h1
+                        simp only [youLevel, Bool.and_eq_true] at h1
+                        refine ⟨h1.1.2, fun st2 hp2 => ?_⟩
+                        obtain ⟨pc2, m2⟩ := st2
+                        simp only [Post] at hp2
+                        obtain ⟨hpc2, hi2⟩ := hp2
+                        subst hpc2
+                        have g := goto_reach lib (pc + nC + nT + nE) pc m2 hplG (by omega)
+                        obtain ⟨st', r3, hp3⟩ := (L m2 hi2).2 (exec_no_defeat _ _ _ _ _ _ _ _ h1' hb3)
+                        exact ((g.trans r3).exec (h2 st' hp3)).2
+                    have hsbd : Safe p B ra Γ env1 F D o (pc + nC + nT) .norm body := by
+                      rcases hs0 with h | ⟨h1, h2⟩
+                      · left; simp only [noTry, Bool.and_eq_true] at h; exact h.1.1
+                      · right
+                        have h1' := h1
+                        simp only [youLevel, Bool.and_eq_true] at h1
+                        refine ⟨h1.1.1, fun st1 hp1 => ?_⟩
+                        obtain ⟨pc1, m1⟩ := st1
+                        simp only [Post] at hp1
+                        obtain ⟨hpc1, hi1⟩ := hp1
+                        subst hpc1
+                        have hcc := ih cont Γ env1 (pc + nC + nT) o m1 env2 tr2 .norm hplE (by rw [hlenE]; omega) hi1 hd hwc (by omega) ho hb2 (by simp)
+                          (by rw [hlenE]; exact hsc)
+                        rw [hlenE] at hcc
+                        obtain ⟨st2, r2, hp2⟩ := hcc.2 (by decide)
+                        obtain ⟨pc2, m2⟩ := st2
+                        simp only [Post] at hp2
+                        obtain ⟨hpc2, hi2⟩ := hp2
+                        subst hpc2
+                        have g := goto_reach lib (pc + nC + nT + nE) pc m2 hplG (by omega)
+                        obtain ⟨st', r3, hp3⟩ := (L m2 hi2).2 (exec_no_defeat _ _ _ _ _ _ _ _ h1' hb3)
+                        exact ((r2.trans (g.trans r3)).exec (h2 st' hp3)).2
+                    have hbb := ih body Γ env (pc + nC) o m0 env1 tr1 .norm hplT (by rw [hlenT]; omega) hinv0 hd hwb (by omega) ho hb1 (by simp)
+                      (by rw [hlenT]; exact hsbd)
+                    rw [hlenT] at hbb
+                    obtain ⟨st1, r1, hp1⟩ := hbb.2 (by decide)
+                    obtain ⟨pc1, m1⟩ := st1
+                    simp only [Post] at hp1
+                    obtain ⟨hpc1, hi1⟩ := hp1
+                    subst hpc1
+                    have hcc := ih cont Γ env1 (pc + nC + nT) o m1 env2 tr2 .norm hplE (by rw [hlenE]; omega) hi1 hd hwc (by omega) ho hb2 (by simp)
+                      (by rw [hlenE]; exact hsc)
+                    rw [hlenE] at hcc
+                    obtain ⟨st2, r2, hp2⟩ := hcc.2 (by decide)
+                    obtain ⟨pc2, m2⟩ := st2
+                    simp only [Post] at hp2
+                    obtain ⟨hpc2, hi2⟩ := hp2
+                    subst hpc2
+                    have g := goto_reach lib (pc + nC + nT + nE) pc m2 hplG (by omega)
+                    have r02 : Reach (sphinx p) ⟨pc, m⟩ (tr1 ++ tr2) ⟨pc, m2⟩ := by
+                      simpa using r0.trans (r1.trans (r2.trans g))
+                    exact Concl.pre r02 (L m2 hi2) (post_conv rfl)
                 · simp only [hn2, if_false, Option.pure_def, Option.some.injEq, Prod.mk.injEq] at hex
                   obtain ⟨rfl, rfl, rfl⟩ := hex
-                  obtain ⟨st2, r2, hp2⟩ := ih cont Γ env1 (pc + nC + nT) o m1 env2 tr2 res2 hplE (by rw [hlenE]; omega) hi1 hd hwc (by omega) ho hb2 hck
-                  refine ⟨st2, by simpa using r0.trans (r1.trans r2), ?_⟩
-                  cases res2 with
-                  | norm => exact absurd rfl hn2
-                  | returned => simpa [Post] using hp2
-                  | div0 => simpa [Post] using hp2
+                  have hsc : Safe p B ra Γ env2 F D o (pc + nC + nT + nE) res2 cont :=
+                    hs.sub (by simp only [noTry, Bool.and_eq_true]; exact fun h => h.1.2)
+                      (by simp only [youLevel, Bool.and_eq_true]; exact fun h => h.1.2) (convN env2 res2 hn2 _ _)
+                  have hsbd : Safe p B ra Γ env1 F D o (pc + nC + nT) .norm body := by
+                    rcases hs with h | ⟨h1, h2⟩
+                    · left; simp only [noTry, Bool.and_eq_true] at h; exact h.1.1
+                    · right
+                      have h1' := h1
+                      simp only [youLevel, Bool.and_eq_true] at h1
+                      refine ⟨h1.1.1, fun st1 hp1 => ?_⟩
+                      obtain ⟨pc1, m1⟩ := st1
+                      simp only [Post] at hp1
+                      obtain ⟨hpc1, hi1⟩ := hp1
+                      subst hpc1
+                      have hcc := ih cont Γ env1 (pc + nC + nT) o m1 env2 tr2 res2 hplE (by rw [hlenE]; omega) hi1 hd hwc (by omega) ho hb2 hck
+                        (by rw [hlenE]; exact hsc)
+                      rw [hlenE] at hcc
+                      obtain ⟨st2, r2, hp2⟩ := hcc.2 (exec_no_defeat _ _ _ _ _ _ _ _ h1.1.2 hb2)
+                      exact (r2.exec (h2 st2 (convN env2 res2 hn2 _ _ st2 hp2))).2
+                  have hbb := ih body Γ env (pc + nC) o m0 env1 tr1 .norm hplT (by rw [hlenT]; omega) hinv0 hd hwb (by omega) ho hb1 (by simp)
+                    (by rw [hlenT]; exact hsbd)
+                  rw [hlenT] at hbb
+                  obtain ⟨st1, r1, hp1⟩ := hbb.2 (by decide)
+                  obtain ⟨pc1, m1⟩ := st1
+                  simp only [Post] at hp1
+                  obtain ⟨hpc1, hi1⟩ := hp1
+                  subst hpc1
+                  have hcc := ih cont Γ env1 (pc + nC + nT) o m1 env2 tr2 res2 hplE (by rw [hlenE]; omega) hi1 hd hwc (by omega) ho hb2 hck
+                    (by rw [hlenE]; exact hsc)
+                  rw [hlenE] at hcc
+                  have r01 : Reach (sphinx p) ⟨pc, m⟩ tr1 ⟨pc + nC + nT, m1⟩ := by simpa using r0.trans r1
+                  exact Concl.pre r01 hcc (convN env2 res2 hn2 _ _)
             · simp only [hn1, if_false, Option.pure_def, Option.some.injEq, Prod.mk.injEq] at hex
               obtain ⟨rfl, rfl, rfl⟩ := hex
-              obtain ⟨st1, r1, hp1⟩ := ih body Γ env (pc + nC) o m0 env1 tr1 res1 hplT (by rw [hlenT]; omega) hinv0 hd hwb (by omega) ho hb1 hck
-              refine ⟨st1, by simpa using r0.trans r1, ?_⟩
-              cases res1 with
-              | norm => exact absurd rfl hn1
-              | returned => simpa [Post] using hp1
-              | div0 => simpa [Post] using hp1
+              have hsb1 : Safe p B ra Γ env1 F D o (pc + nC + nT) res1 body :=
+                hs.sub (by simp only [noTry, Bool.and_eq_true]; exact fun h => h.1.1)
+                  (by simp only [youLevel, Bool.and_eq_true]; exact fun h => h.1.1) (convN env1 res1 hn1 _ _)
+              have hbb := ih body Γ env (pc + nC) o m0 env1 tr1 res1 hplT (by rw [hlenT]; omega) hinv0 hd hwb (by omega) ho hb1 hck
+                (by rw [hlenT]; exact hsb1)
+              rw [hlenT] at hbb
+              simpa using Concl.pre r0 hbb (convN env1 res1 hn1 _ _)
+    | tryUndo body handler k =>
+      rcases hs with h | ⟨h1, h2⟩
+      · simp [noTry] at h
+      · simp only [youLevel, Bool.and_eq_true] at h1
+        obtain ⟨⟨hntb, hplh⟩, hyk⟩ := h1
+        simp only [wfS, Bool.and_eq_true] at hwf
+        obtain ⟨⟨hwb, hwh⟩, hwk⟩ := hwf
+        simp only [pkS] at hpk
+        simp only [cS] at hpl hB h2 ⊢
+        have hlenB : (cS (cxOf p ck B) Γ (pc + 1) o body).length = lenS ck body := cS_len _ _ _ _ _
+        have hlenH : (cS (cxOf p ck B) Γ (pc + 1 + lenS ck body + 2) o handler).length = lenS ck handler := cS_len _ _ _ _ _
+        generalize hnB : lenS ck body = nB at *
+        generalize hnH : lenS ck handler = nH at *
+        obtain ⟨hpl1234, hplK⟩ := hpl.append
+        obtain ⟨hpl123, hplH⟩ := hpl1234.append
+        obtain ⟨hpl12, hplG⟩ := hpl123.append
+        obtain ⟨hplJ, hplB⟩ := hpl12.append
+        simp only [List.length_append, List.length_cons, List.length_nil, hlenB, hlenH, goto_len, ← Nat.add_assoc, Nat.zero_add]
+          at hB hplK hplH hplG hplB h2 ⊢
+        have hendM : pc + 1 + nB + 2 + nH < 256 ^ p.w := by simp [stdlibLength] at hBM; omega
+        have s0 := step_j (m := m) (placed_one hplJ) (ev_imm (pc + 1 + nB + 2))
+        rw [show (pc + 1 + nB + 2) % p.M = pc + 1 + nB + 2 from Nat.mod_eq_of_lt (by unfold Prog.M; omega)] at s0
+        have convN : ∀ (envx : Env) (resx : Res), resx ≠ .norm → ∀ (e1 e2 : Nat) st',
+            Post p B ra Γ envx F D o e1 resx st' → Post p B ra Γ envx F D o e2 resx st' := by
+          intro envx resx hx e1 e2 st' h
+          cases resx with
+          | norm => exact absurd rfl hx
+          | returned => simpa [Post] using h
+          | div0 => simpa [Post] using h
+          | defeat => simpa [Post] using h
+        simp only [exec] at hex
+        cases hb1 : exec (256 ^ p.w) (8 * p.w) f env body with
+        | none => simp [hb1] at hex
+        | some rb =>
+          obtain ⟨env1, tr1, res1⟩ := rb
+          simp only [hb1, Option.bind_eq_bind, Option.bind_some] at hex
+          by_cases hdft : res1 = .defeat
+          · -- the body would be defeated: the Turing jump goes to the handler, in the state before the try
+            subst hdft
+            simp only [if_true] at hex
+            have hbb := ih body Γ env (pc + 1) o m env1 tr1 .defeat hplB (by rw [hlenB]; omega) hinv hd hwb (by omega) ho hb1
+              (by simp) (Or.inl hntb)
+            have jt : Reach (sphinx p) ⟨pc, m⟩ [] ⟨pc + 1 + nB + 2, m⟩ := Reach.jump_taken' (sys := sphinx p) s0 (hbb.1 rfl)
+            cases hh2 : exec (256 ^ p.w) (8 * p.w) f env handler with
+            | none => simp [hh2] at hex
+            | some rh =>
+              obtain ⟨env2, tr2, res2⟩ := rh
+              simp only [hh2, Option.bind_some] at hex
+              have hnd2 : res2 ≠ .defeat := exec_no_defeat _ _ _ _ _ _ _ _ (plain_youLevel _ hplh) hh2
+              by_cases hn2 : res2 = .norm
+              · subst hn2
+                simp only [if_true] at hex
+                cases hk : exec (256 ^ p.w) (8 * p.w) f env2 k with
+                | none => simp [hk] at hex
+                | some rk =>
+                  obtain ⟨env3, tr3, res3⟩ := rk
+                  simp only [hk, Option.bind_some, Option.pure_def, Option.some.injEq, Prod.mk.injEq] at hex
+                  obtain ⟨rfl, rfl, rfl⟩ := hex
+                  have hhh := ih handler Γ env (pc + 1 + nB + 2) o m env2 tr2 .norm hplH (by rw [hlenH]; omega) hinv hd hwh (by omega) ho hh2
+                    (by simp) (Or.inl (plain_noTry _ hplh))
+                  rw [hlenH] at hhh
+                  obtain ⟨st2, r2, hp2⟩ := hhh.2 (by decide)
+                  obtain ⟨pc2, m2⟩ := st2
+                  simp only [Post] at hp2
+                  obtain ⟨hpc2, hi2⟩ := hp2
+                  subst hpc2
+                  have hkk := ih k Γ env2 (pc + 1 + nB + 2 + nH) o m2 env3 tr3 res3 hplK (by omega) hi2 hd hwk (by omega) ho hk hck
+                    (Or.inr ⟨hyk, fun st' hp => h2 st' hp⟩)
+                  have r02 : Reach (sphinx p) ⟨pc, m⟩ tr2 ⟨pc + 1 + nB + 2 + nH, m2⟩ := by simpa using jt.trans r2
+                  exact Concl.pre r02 hkk (post_conv rfl)
+              · simp only [hn2, if_false, Option.pure_def, Option.some.injEq, Prod.mk.injEq] at hex
+                obtain ⟨rfl, rfl, rfl⟩ := hex
+                have hhh := ih handler Γ env (pc + 1 + nB + 2) o m env2 tr2 res2 hplH (by rw [hlenH]; omega) hinv hd hwh (by omega) ho hh2
+                  hck (Or.inl (plain_noTry _ hplh))
+                simpa using Concl.pre jt hhh (convN env2 res2 hn2 _ _)
+          · simp only [hdft, if_false] at hex
+            have hbb := ih body Γ env (pc + 1) o m env1 tr1 res1 hplB (by rw [hlenB]; omega) hinv hd hwb (by omega) ho hb1
+            by_cases hn : res1 = .norm
+            · subst hn
+              simp only [if_true] at hex
+              cases hk : exec (256 ^ p.w) (8 * p.w) f env1 k with
+              | none => simp [hk] at hex
+              | some rk =>
+                obtain ⟨env3, tr3, res3⟩ := rk
+                simp only [hk, Option.bind_some, Option.pure_def, Option.some.injEq, Prod.mk.injEq] at hex
+                obtain ⟨rfl, rfl, rfl⟩ := hex
+                have hbb' := hbb (by simp) (Or.inl hntb)
+                rw [hlenB] at hbb'
+                obtain ⟨st1, r1, hp1⟩ := hbb'.2 (by decide)
+                obtain ⟨pc1, m1⟩ := st1
+                simp only [Post] at hp1
+                obtain ⟨hpc1, hi1⟩ := hp1
+                subst hpc1
+                have g := goto_reach lib (pc + 1 + nB) (pc + 1 + nB + 2 + nH) m1 hplG hendM
+                have hkk := ih k Γ env1 (pc + 1 + nB + 2 + nH) o m1 env3 tr3 res3 hplK (by omega) hi1 hd hwk (by omega) ho hk hck
+                  (Or.inr ⟨hyk, fun st' hp => h2 st' hp⟩)
+                have hnd3 : res3 ≠ .defeat := exec_no_defeat _ _ _ _ _ _ _ _ hyk hk
+                obtain ⟨st', r3, hp3⟩ := hkk.2 hnd3
+                have rbody : Reach (sphinx p) ⟨pc + 1, m⟩ (tr1 ++ tr3) st' := by simpa using r1.trans (g.trans r3)
+                have nh1 : ¬ Halts (sphinx p) ⟨pc + 1, m⟩ := (rbody.exec (h2 st' hp3)).2
+                have jn := Reach.jump_not_taken (sys := sphinx p) s0 (fun hh => absurd hh nh1)
+                exact ⟨fun hd' => absurd hd' hnd3, fun _ => ⟨st', by simpa using jn.trans rbody, hp3⟩⟩
+            · simp only [hn, if_false, Option.pure_def, Option.some.injEq, Prod.mk.injEq] at hex
+              obtain ⟨rfl, rfl, rfl⟩ := hex
+              have hbb' := hbb hck (Or.inl hntb)
+              obtain ⟨st1, r1, hp1⟩ := hbb'.2 hdft
+              have hp1' := convN env1 res1 hn _ (pc + 1 + nB + 2 + nH + (cS (cxOf p ck B) Γ (pc + 1 + nB + 2 + nH) o k).length) st1 hp1
+              have nh1 : ¬ Halts (sphinx p) ⟨pc + 1, m⟩ := (r1.exec (h2 st1 hp1')).2
+              have jn := Reach.jump_not_taken (sys := sphinx p) s0 (fun hh => absurd hh nh1)
+              exact ⟨fun hd' => absurd hd' hdft, fun _ => ⟨st1, by simpa using jn.trans r1, hp1'⟩⟩
 end
 
 end HidVerif.Core
